@@ -24,7 +24,7 @@ impl Property for C07 {
     }
 
     fn budget(&self) -> (u64, u64) {
-        (50_000, 1_500_000)
+        (80_000, 2_400_000)
     }
 
     fn rule(&self) -> &'static str {
@@ -195,24 +195,30 @@ impl Property for C07 {
         }
         let case_hash = fnv(serde_json::to_string(case).unwrap().as_bytes());
 
-        // --- reference: unlimited, line by line, rows attributed to lines
-        let mut rspec = WorldSpec::new(&defs, &stmt, Mode::Engine);
-        rspec.engine_lines = all_lines.iter().map(|l| String::from_utf8(l.clone()).unwrap()).collect();
-        if let Some(j) = &joined {
-            rspec.extra_files.push((sqlgen::JOINED_PATH.to_owned(), j.clone()));
-        }
-        rspec.format = format.clone();
-        rspec.single_result = single;
-        let reference = run(&mut out, "reference (no LIMIT, line by line)", &rspec, want_trace);
+        // --- reference: unlimited, line by line, rows attributed to lines (non-aggregate statements; an aggregate
+        // fed line by line would rebuild and print its whole table at every line - quadratic in the size regimes)
         let base_features = json!({"kind": kind});
-        if !usable(&mut out, "c07", &reference, &base_features) {
-            return out;
-        }
-        if reference.status != Status::Ok {
-            out.invalid = Some(format!("unlimited reference: {}", status_label(&reference.status)));
-            return out;
-        }
-        let aggregate = reference.engine.iter().any(|e| e.updated) || kind == "aggregate";
+        let reference = if kind == "aggregate" {
+            None
+        } else {
+            let mut rspec = WorldSpec::new(&defs, &stmt, Mode::Engine);
+            rspec.engine_lines = all_lines.iter().map(|l| String::from_utf8(l.clone()).unwrap()).collect();
+            if let Some(j) = &joined {
+                rspec.extra_files.push((sqlgen::JOINED_PATH.to_owned(), j.clone()));
+            }
+            rspec.format = format.clone();
+            rspec.single_result = single;
+            let reference = run(&mut out, "reference (no LIMIT, line by line)", &rspec, want_trace);
+            if !usable(&mut out, "c07", &reference, &base_features) {
+                return out;
+            }
+            if reference.status != Status::Ok {
+                out.invalid = Some(format!("unlimited reference: {}", status_label(&reference.status)));
+                return out;
+            }
+            Some(reference)
+        };
+        let aggregate = kind == "aggregate" || reference.as_ref().map(|r| r.engine.iter().any(|e| e.updated)).unwrap_or(false);
         // (record, 1-based line that produced it)
         let mut ref_rows: Vec<(String, usize)> = Vec::new();
         if aggregate {
@@ -229,7 +235,7 @@ impl Property for C07 {
                 ref_rows.push((rec, all_lines.len()));
             }
         } else {
-            for (i, e) in reference.engine.iter().enumerate() {
+            for (i, e) in reference.as_ref().map(|r| r.engine.clone()).unwrap_or_default().iter().enumerate() {
                 for p in e.printed.iter().filter(|p| !p.is_empty()) {
                     ref_rows.push((p.clone(), i + 1));
                 }
